@@ -220,7 +220,237 @@ func (fc *FnCtx) trCall(st *State, call *ast.CallExpr) []Val {
 			return rs
 		}
 	}
+	// a small pure helper of the repository without a contract (typically the product of an
+	// "extract function" refactoring) is executed in place, all its paths merged
+	if fc.w.isRepoPkg(pkgPath) && recvExpr == nil {
+		if rs, ok := fc.autoInline(st, call, fn, pkgPath, name); ok {
+			return rs
+		}
+	}
 	return fc.havocCall(st, call, full)
+}
+
+// autoInline: in-place execution of a contract-less repository function that is loop-free,
+// takes and returns only values (ints, bools, strings, byte slices, string lists), assigns no
+// package-level variable and leaves no trace in the ghost state. Every returning path
+// contributes its result under its own path condition: r = ite(H1, r1, ite(H2, r2, ...)).
+func (fc *FnCtx) autoInline(st *State, call *ast.CallExpr, fn *types.Func, pkgPath, name string) ([]Val, bool) {
+	site := fc.w.funcs[pkgPath+"::"+name]
+	if site == nil || site.decl == nil || site.decl.Body == nil || fc.inlineDepth > 2 || fc.specMode != nil {
+		return nil, false
+	}
+	if isVerifFile(site.pkg.Fset.Position(site.decl.Pos()).Filename) {
+		return nil, false
+	}
+	sig := fn.Type().(*types.Signature)
+	valueSort := func(t types.Type) bool {
+		switch sortOf(t) {
+		case SInt, SBool, SStr, SSL, SIL:
+			return true
+		}
+		return false
+	}
+	if sig.Variadic() || sig.Results().Len() == 0 || sig.Results().Len() > 3 {
+		return nil, false
+	}
+	mapParams := map[string]bool{}
+	for i := 0; i < sig.Params().Len(); i++ {
+		pt := sig.Params().At(i).Type()
+		if sortOf(pt) == SMap {
+			mapParams[sig.Params().At(i).Name()] = true // accepted when the body only reads it
+			continue
+		}
+		if isNamed(pt, "regexp", "Regexp") {
+			continue // compiled patterns are immutable
+		}
+		if !valueSort(pt) {
+			return nil, false
+		}
+	}
+	for i := 0; i < sig.Results().Len(); i++ {
+		if !valueSort(sig.Results().At(i).Type()) {
+			return nil, false
+		}
+	}
+	simple := true
+	ast.Inspect(site.decl.Body, func(n ast.Node) bool {
+		switch x := n.(type) {
+		case *ast.FuncLit, *ast.DeferStmt, *ast.GoStmt, *ast.SelectStmt, *ast.TypeSwitchStmt, *ast.LabeledStmt:
+			simple = false
+		case *ast.CallExpr:
+			if id, ok := x.Fun.(*ast.Ident); ok && id.Name == fn.Name() {
+				simple = false // recursion
+			}
+			// a map parameter may only be read: not deleted from, not handed on
+			if id, ok := x.Fun.(*ast.Ident); ok && id.Name == "len" {
+				return false
+			}
+			for _, a := range x.Args {
+				if id, ok := a.(*ast.Ident); ok && mapParams[id.Name] {
+					simple = false
+				}
+			}
+		case *ast.AssignStmt:
+			for _, l := range x.Lhs {
+				if v := globalRoot(site.pkg.TypesInfo, l); v != nil {
+					simple = false
+				}
+				if ix, ok := l.(*ast.IndexExpr); ok {
+					if id, ok := ix.X.(*ast.Ident); ok && mapParams[id.Name] {
+						simple = false
+					}
+				}
+			}
+			for _, r := range x.Rhs {
+				if id, ok := r.(*ast.Ident); ok && mapParams[id.Name] {
+					simple = false // aliasing the map
+				}
+			}
+		case *ast.IncDecStmt:
+			if v := globalRoot(site.pkg.TypesInfo, x.X); v != nil {
+				simple = false
+			}
+		}
+		return simple
+	})
+	if !simple || len(call.Args) != sig.Params().Len() {
+		return nil, false
+	}
+	var args []Val
+	for _, a := range call.Args {
+		args = append(args, fc.tr(st, a))
+	}
+	savedPkg, savedSig, savedKeys, savedBody, savedContract := fc.pkg, fc.sig, fc.resultKeys, fc.body, fc.contract
+	fc.pkg, fc.sig, fc.body = site.pkg, sig, site.decl.Body
+	fc.contract = &Contract{Pkg: pkgPath, Func: name, Opts: map[string]string{}, Tags: savedContract.Tags, Safety: savedContract.Safety}
+	fc.resultKeys = nil
+	fc.inlineDepth++
+	for i := 0; i < sig.Results().Len(); i++ {
+		r := sig.Results().At(i)
+		if r.Name() != "" && r.Name() != "_" {
+			fc.resultKeys = append(fc.resultKeys, objKey(r))
+		} else {
+			fc.resultKeys = append(fc.resultKeys, fmt.Sprintf("ainl%d_%s_result%d", fc.counter, sanitize(name), i))
+		}
+	}
+	fc.counter++
+	keys := fc.resultKeys
+	restore := func() {
+		fc.pkg, fc.sig, fc.resultKeys, fc.body, fc.contract = savedPkg, savedSig, savedKeys, savedBody, savedContract
+		fc.inlineDepth--
+	}
+	run := func(dry bool) ([]Outcome, *State) {
+		work := st.clone()
+		for i := 0; i < sig.Params().Len(); i++ {
+			pr := sig.Params().At(i)
+			fc.assignKey(work, objKey(pr), pr.Type(), args[i])
+		}
+		for i, k := range keys {
+			rt := sig.Results().At(i).Type()
+			if r := sig.Results().At(i); r.Name() != "" && r.Name() != "_" {
+				fc.assignKey(work, k, rt, zeroVal(fc, work, sortOf(rt), rt))
+			}
+		}
+		if dry {
+			fc.dry++
+			defer func() { fc.dry-- }()
+		}
+		base := work.clone()
+		return fc.execBlock(work, site.decl.Body.List), base
+	}
+	acceptable := func(outs []Outcome, base *State) bool {
+		if len(outs) == 0 || len(outs) > 16 {
+			return false
+		}
+		for _, o := range outs {
+			if o.Kind != OReturn && o.Kind != ONormal {
+				return false
+			}
+			if o.Kind == ONormal && sig.Results().Len() > 0 {
+				return false
+			}
+			for k, v := range o.St.env {
+				bv, had := base.env[k]
+				if strings.HasPrefix(k, "ghost.called.") || strings.HasPrefix(k, "ghost.ret.") || strings.HasPrefix(k, "ghost.arg.") {
+					continue // bookkeeping of calls made inside (dropped: nobody can name them)
+				}
+				if strings.HasPrefix(k, "ghost.") && (!had || bv.T != v.T) {
+					return false // calls inside left a trace (writes, reads, scanners ...)
+				}
+				if had && (bv.T != v.T || bv.Rec != v.Rec) && !strings.Contains(k, "@") {
+					return false // something of the caller changed
+				}
+			}
+			if len(o.St.scans) != len(base.scans) {
+				return false
+			}
+		}
+		return true
+	}
+	// the trial run must not leave anything behind if the body turns out not to be executable
+	nErr, nAbs, nNotes := len(fc.errors), len(fc.abstracted), len(fc.notes)
+	unmodelledBefore := map[string]bool{}
+	for k := range fc.unmodelled {
+		unmodelledBefore[k] = true
+	}
+	giveUp := func() {
+		fc.errors, fc.abstracted, fc.notes = fc.errors[:nErr], fc.abstracted[:nAbs], fc.notes[:nNotes]
+		for k := range fc.unmodelled {
+			if !unmodelledBefore[k] {
+				delete(fc.unmodelled, k)
+			}
+		}
+		restore()
+	}
+	outs, base := run(true)
+	if len(fc.errors) > nErr || !acceptable(outs, base) {
+		giveUp()
+		return nil, false
+	}
+	// a body that calls something unmodelled gains nothing from being executed in place
+	for k := range fc.unmodelled {
+		if !unmodelledBefore[k] {
+			giveUp()
+			return nil, false
+		}
+	}
+	outs, base = run(false)
+	if len(fc.errors) > nErr || !acceptable(outs, base) {
+		giveUp()
+		return nil, false
+	}
+	n0 := len(base.assume)
+	var hs []string
+	for _, o := range outs {
+		hs = append(hs, and(o.St.assume[n0:]...))
+	}
+	var results []Val
+	for i, k := range keys {
+		rt := sig.Results().At(i).Type()
+		srt := sortOf(rt)
+		cur := fc.readKey(outs[len(outs)-1].St, k, rt).T
+		for j := len(outs) - 2; j >= 0; j-- {
+			cur = "(ite " + hs[j] + " " + fc.readKey(outs[j].St, k, rt).T + " " + cur + ")"
+		}
+		results = append(results, Val{T: cur, S: srt, GT: rt})
+	}
+	restore()
+	// declarations made on the paths are global to the function context; the facts of exactly
+	// one path hold
+	if len(hs) == 1 {
+		st.assume = append(st.assume, outs[0].St.assume[n0:]...)
+	} else {
+		st.assume = append(st.assume, "(or "+strings.Join(hs, " ")+")")
+	}
+	for i, a := range args {
+		st.env[fmt.Sprintf("ghost.arg.%s.%d", fn.Name(), i)] = a
+	}
+	st.env["ghost.called."+fn.Name()] = boolVal("true")
+	for i, rv := range results {
+		st.env[fmt.Sprintf("ghost.ret.%s.%d", fn.Name(), i)] = rv
+	}
+	fc.notes = appendUnique(fc.notes, "helper without contract executed in place (all paths merged): "+pkgShort(pkgPath)+"."+name)
+	return results, true
 }
 
 func (fc *FnCtx) externKeys(fn *types.Func, recvExpr ast.Expr) []string {
